@@ -100,6 +100,7 @@ COMPOUND = [
 BINARY = [
     ("AndNot", lambda a, b: query.AndNot(a, b)), ("AndMaybe", lambda a, b: query.AndMaybe(a, b)), ("Require", lambda a, b: query.Require(a, b)),
     ("Not", lambda a, b: query.Not(a)), ("a&b", lambda a, b: a & b), ("a|b", lambda a, b: a | b), ("a-b", lambda a, b: a - b),
+    ("Otherwise", lambda a, b: query.Otherwise(a, b)),
 ]
 NOP = len(COMPOUND) + len(BINARY)
 
@@ -127,6 +128,26 @@ def _flat_and_clauses(q):
     return out
 
 
+from whoosh.query.compound import BinaryQuery as _BinaryQuery
+from whoosh.query.wrappers import WrappingQuery as _WrappingQuery
+
+
+def _kfield(q):
+    """field() as documented (Not and NullQuery have none, compounds the common field of their clauses), computed here so that
+    the exclusion below does not depend on the field() methods of the code under test (seed C15-5 widened it through Not.field())"""
+    if q is query.NullQuery or isinstance(q, query.Not):
+        return None
+    if hasattr(q, "subqueries"):
+        fs = [_kfield(s) for s in q.subqueries]
+        return fs[0] if fs and all(f == fs[0] for f in fs[1:]) else None
+    if isinstance(q, _BinaryQuery):
+        fa = _kfield(q.a)
+        return fa if _kfield(q.b) == fa else None
+    if isinstance(q, _WrappingQuery):
+        return _kfield(q.child)
+    return q.field()
+
+
 def kf_every_field_under_and(q):
     """And containing Every(f) next to another clause whose field() is f: normalize() keeps only
     Every(f) (pinned by tests/test_queries.py::test_merge_ranges).  Also the Or form with a Not clause of
@@ -150,7 +171,7 @@ def kf_every_field_under_and(q):
         for s in flat:
             if s is query.NullQuery or isinstance(s, query.Every):
                 continue
-            if s.field() in efields:
+            if _kfield(s) in efields:
                 if isinstance(q, query.And):
                     return True
                 # disjunction: absorbing a positive same-field clause is sound; a Not clause is not
